@@ -105,3 +105,16 @@ ERR_WILD_ARMS = [
     (r"^eval::assign$", 1, 'Lvalue::Or: the first alternative did not match, try the second'),
     (r"^<SeqAndMappedFoldBuiltin as core::Builtin>::run[12]?$", 1, 'e @ Err(_) => return e: propagated unchanged'),
 ]
+
+
+# R14.7: partial division-like operations whose divisor is not syntactically guarded: function-key regex, callee last segment -> reason
+PARTIAL_TABLE = [
+    (r"^nint::NInt::lazy_is_prime$", 'rem', 'trial divisors are 2, 3 and the counter f that starts at 5 and only grows'),
+    (r"^builtin\(%\)$", 'rem', 'the zero test covers exactly the exact levels (Int|Rational)^2 (C06 R6.6 checks the coverage); float operands yield NaN, no panic'),
+    (r"^decimal::apply_exp10$", 'new', 'the denominator is 10^k, never zero'),
+    (r"^nnum::dumb_rational_div_floor$", 'div', 'helper of // on rationals: every caller (builtin //, /!, * pattern) tests the divisor with is_nonzero first (R6.6)'),
+    (r"^<streams::Range as core::Stream>::len$", 'div', 'inside the Sign::Plus / Sign::Minus arms of the step: the step is non-zero'),
+    (r"^<streams::Cycle as core::Stream>::pythonic_index_isize$", 'rem_euclid', 'the base of a Cycle is never empty: checked separately below (cycle builtin guard, reversed keeps the length)'),
+    (r"^builtin\(str_radix\)$", 'rem', 'the base r was checked to be in 2..=36'),
+    (r"^builtin\(str_radix\)$", 'div_assign', 'the base was checked to be in 2..=36'),
+]
